@@ -2,6 +2,8 @@
 
 #include <mustache/utils/profiler.hpp>
 
+#include <cstring>
+
 #include <mustache/ecs/world.hpp>
 
 using namespace mustache;
@@ -349,8 +351,13 @@ void EntityManager::applyCommandPack(TemporalStorage& storage, size_t begin, siz
             continue;
         }
         auto dest = view.getData(archetype.getComponentIndex(command.component_id));
-        const auto& component_functions = ComponentFactory::instance().componentInfo(command.component_id).functions;
-        component_functions.move_constructor(dest, command.ptr);
+        const auto& component_info = ComponentFactory::instance().componentInfo(command.component_id);
+        const auto& component_functions = component_info.functions;
+        if (component_functions.move_constructor) {
+            component_functions.move_constructor(dest, command.ptr);
+        } else {
+            memcpy(dest, command.ptr, component_info.size); // plain data: same fallback as ExternalMoveInfo::move
+        }
         if (component_functions.after_assign) {
             component_functions.after_assign(dest, command.entity, world_);
         }
